@@ -347,9 +347,26 @@ class MatrixSubproblemSolver(LinearSubproblemSolver):
                 A = snp.diag(A.diagonal)
             W = 2.0 * self.admm.f.scale * admm.f.W  # type: ignore
 
-        Csum = reduce(
-            lambda a, b: a + b, [rhoi * Ci.gram_op for rhoi, Ci in zip(admm.rho_list, admm.C_list)]
-        )
+        if all(isinstance(Ci, Diagonal) for Ci in admm.C_list):
+            Csum = reduce(
+                lambda a, b: a + b,
+                [rhoi * Ci.gram_op for rhoi, Ci in zip(admm.rho_list, admm.C_list)],
+            )
+        else:
+            # a sum of Diagonal and MatrixOperator gram operators is a generic LinearOperator,
+            # which MatrixATADSolver cannot factorize: form the matrix explicitly
+
+            def gram_matrix(Ci):
+                if isinstance(Ci, MatrixOperator):
+                    return Ci.A.conj().T @ Ci.A
+                return snp.diag(Ci.gram_op.diagonal)
+
+            Csum = MatrixOperator(
+                reduce(
+                    lambda a, b: a + b,
+                    [rhoi * gram_matrix(Ci) for rhoi, Ci in zip(admm.rho_list, admm.C_list)],
+                )
+            )
         self.solver = MatrixATADSolver(A, Csum, W, **self.solve_kwargs)
 
     def solve(self, x0: Array) -> Array:
